@@ -74,6 +74,9 @@ def rebase_line(line: Dict) -> Dict:
     return out
 
 
+SELECTION_NOTES: List[str] = []
+
+
 def read_back(path: str, rp: str, qp: str):
     """the project's own reader, wired as Program wires it"""
     from src.parsers.cmap_reader import CmapReader
@@ -86,6 +89,21 @@ def read_back(path: str, rp: str, qp: str):
     reader = XmapReader(XmapAlignmentPairWithDistanceParser(refs, qrys))
     with open(path) as f:
         als = reader.readAlignments(f)
+    # reading with a selection (used by the plotting / benchmark tools; not part of C18's statement: reported as drift)
+    SELECTION_NOTES.clear()
+    try:
+        with open(path) as f:
+            none = reader.readAlignments(f, queryIds=[987654321])
+        if len(none) != 0:
+            SELECTION_NOTES.append(f"selection of an absent query id returned {len(none)} alignments")
+        if als:
+            q0 = als[0].queryId
+            with open(path) as f:
+                some = reader.readAlignments(f, queryIds=[q0])
+            if len(some) != sum(1 for a in als if a.queryId == q0):
+                SELECTION_NOTES.append("selection by query id returned another number of alignments")
+    except Exception as e:
+        SELECTION_NOTES.append("reading with a selection raised " + type(e).__name__)
     out = []
     for a in als:
         c = float(a.confidence) * 100
@@ -243,6 +261,7 @@ def _explore_input(seed: int, idx: int, modes: List[str], n_qry: int, with_readb
                         rb = read_back(parsed["path"], rp, qp)
                         ms["files"][name]["readback"] = "ok"
                         ms["files"][name]["readback_n"] = len(rb)
+                        ms["files"][name]["selection_notes"] = list(SELECTION_NOTES)
                     except Exception as e:
                         ms["files"][name]["readback"] = "exc:" + type(e).__name__
                         ms["files"][name]["readback_n"] = -1
